@@ -174,7 +174,7 @@ def check(run):
     gap_d(run, [0, 1, 16] if quick else [0, 1, 16, 96, 256], betas, 6 if quick else 10)
     run.assumptions += ["numba compiles IEEE operations in source order without contraction (re-measured by the bitwise correspondence every run)",
                         "rounding-error bound K=16 (ell+1) eps is checked by oracle sampling only (no theorem): DESIGN.md §5",
-                        "identification of the recursion's exact limit with the documented d: proved for ell<=2 and at both poles for every ell (DDef, DDef2); for ell>=3 proved CONDITIONALLY on the documented d satisfying the Gumerov-Duraiswami relations (GDFamily.objd_eq_doc_of_IsGDFamily; the relations have a unique solution, GDFamily.IsGDFamily.unique); that hypothesis is pure mathematics and is covered here by oracle sampling only"]
+                        "exact arithmetic: the model of Wigner.D / Wigner.d EQUALS the documented formula for every ell, every unit quaternion and every entry (DAll.D_all, d_all on top of DocD.objd_eq_docd); what remains unproved for C01 is only the floating-point error bound, which the mpmath oracle samples"]
 
 
 def replay(body):
